@@ -357,6 +357,9 @@ restart:
         }
         else if (rc != Z_OK) {
             htp_log(d->tx->connp, HTP_LOG_MARK, HTP_LOG_WARNING, 0, "GZip decompressor: inflate failed with %d", rc);
+            HTP_VERIF_TP(NULL, NULL, ((drec->zlib_initialized != HTP_COMPRESSION_LZMA) &&
+                    (drec->stream.total_in > (uLong) (drec->stream.next_in - (const Bytef *) d->data)))
+                    ? "decomp_fail_after_earlier_chunks" : "decomp_fail_in_first_chunk");
             if (drec->zlib_initialized == HTP_COMPRESSION_LZMA) {
                 LzmaDec_Free(&drec->state, &lzma_Alloc);
                 // so as to clean zlib ressources after restart
